@@ -157,15 +157,26 @@ def _fontspecs():
     pf = {"Type": LIT("Font"), "Subtype": LIT("Type1"), "BaseFont": LIT("PF"), "FirstChar": 65, "Widths": [500, 600],
           "FontDescriptor": {"FontName": LIT("PF"), "FontBBox": [0, 0, 1000, 1000], "FontFile": prog}}
     pn = {"Type": LIT("Font"), "Subtype": LIT("Type1"), "BaseFont": LIT("PN"), "FirstChar": 65, "Widths": [500, 600], "FontDescriptor": {"FontName": LIT("PN"), "FontBBox": [0, 0, 1000, 1000]}}
-    return {"f1": f1, "f2": f2, "t1": t1, "t3": t3, "desc": desc, "pf": pf, "pn": pn}
+    # two uses of one standard-14 font (metrics come from the process-wide table of the library) whose encodings show different glyphs under code 65
+    s1 = {"Type": LIT("Font"), "Subtype": LIT("Type1"), "BaseFont": LIT("Helvetica"), "Encoding": {"Differences": [65, LIT("W")]}}
+    s2 = {"Type": LIT("Font"), "Subtype": LIT("Type1"), "BaseFont": LIT("Helvetica"), "Encoding": {"Differences": [65, LIT("i")]}}
+    return {"f1": f1, "f2": f2, "t1": t1, "t3": t3, "desc": desc, "pf": pf, "pn": pn, "s1": s1, "s2": s2}
 
 
-ABSOLUTE = {"pf": ["B", "A"], "pn": ["A", "B"], "t1": ["B", "B"]}          # text of codes 65, 66 that does not depend on anything but the font's own dictionary
+FONT_NAMES = ["f1", "f2", "t1", "t3", "pf", "pn", "s1", "s2"]
+FONT_IDS = {"f1": 11, "f2": 12, "t1": 13, "t3": 14, "pf": 15, "pn": 16, "s1": 17, "s2": 18}
+ABS_WIDTHS = {"s1": [0.944, 0.667], "s2": [0.222, 0.667]}                  # Helvetica's AFM widths of W, i and B (codes 65, 66)
+
+
+ABSOLUTE = {"pf": ["B", "A"], "pn": ["A", "B"], "t1": ["B", "B"], "s1": ["W", "B"], "s2": ["i", "B"]}          # text of codes 65, 66 that does not depend on anything but the font's own dictionary
 
 
 def _shared_tables():
     import pdfminer.encodingdb as ed
-    return {k: dict(v) for k, v in vars(ed.EncodingDB).items() if isinstance(v, dict)}
+    import pdfminer.fontmetrics as fm
+    t = {k: dict(v) for k, v in vars(ed.EncodingDB).items() if isinstance(v, dict)}
+    t["FONT_METRICS"] = {k: (dict(d), dict(w)) for k, (d, w) in fm.FONT_METRICS.items()}
+    return t
 
 
 def _snap(x, depth=0):
@@ -196,10 +207,10 @@ def h4_getfont(ncalls=3, timeout=150, part=None, **kw):
 
     def fn(ex):
         specs = _fontspecs()
-        names = ["f1", "f2", "t1", "t3", "pf", "pn"]
+        names = FONT_NAMES
         caching = ex.choice(2, "caching") == 1
         hist = [names[ex.choice(len(names), "h%d" % i)] for i in range(ncalls)]
-        ids = {"f1": 11, "f2": 12, "t1": 13, "t3": 14, "pf": 15, "pn": 16}
+        ids = FONT_IDS
         rm = pi.PDFResourceManager(caching=caching)
         before = {k: _snap(v) for k, v in specs.items()}
         tables = _shared_tables()
@@ -211,7 +222,11 @@ def h4_getfont(ncalls=3, timeout=150, part=None, **kw):
                 got = [_try(f.to_unichr, c) for c in (65, 66)]
                 ex.require(got == ABSOLUTE[n], "font %s after the history %r shows codes 65, 66 as %r, its own dictionary / font program says %r" % (n, hist[:i], got, ABSOLUTE[n]),
                            hist=hist, caching=caching, step=i)
-            ex.require(_shared_tables() == tables, "building font %s modified a process-wide encoding table" % n, hist=hist, caching=caching, step=i)
+            if n in ABS_WIDTHS:
+                gw = [round(f.char_width(c), 6) for c in (65, 66)]
+                ex.require(gw == ABS_WIDTHS[n], "font %s after the history %r gives codes 65, 66 the widths %r, the metrics of its glyphs are %r" % (n, hist[:i], gw, ABS_WIDTHS[n]),
+                           hist=hist, caching=caching, step=i)
+            ex.require(_shared_tables() == tables, "building or measuring font %s modified a process-wide encoding or metrics table" % n, hist=hist, caching=caching, step=i)
             # reference: a fresh manager, fresh specs
             ref = _font_sig(pi.PDFResourceManager(caching=False).get_font(None, _fontspecs()[n]))
             ex.require(sig == ref, "font %s obtained after the history %r (caching=%s) differs from the same font built in isolation: %r vs %r" % (n, hist[:i], caching, sig, ref),
@@ -222,7 +237,7 @@ def h4_getfont(ncalls=3, timeout=150, part=None, **kw):
 
     def conc(m, info):
         return info
-    return core.run_symx("H4_getfont", fn, [pi.PDFResourceManager.get_font], {"fonts": "two Type0 fonts sharing one descendant (only one has ToUnicode), a Type1 and a Type3 font with Differences, two Type1 fonts without Encoding (one with an embedded font program)",
+    return core.run_symx("H4_getfont", fn, [pi.PDFResourceManager.get_font], {"fonts": "two Type0 fonts sharing one descendant (only one has ToUnicode), a Type1 and a Type3 font with Differences, two Type1 fonts without Encoding (one with an embedded font program), two uses of standard-14 Helvetica with different Differences",
                                                                             "history": "every sequence of %d get_font calls" % ncalls, "caching": "on/off"}, timeout, concretize=conc, part=part)
 
 
@@ -338,7 +353,7 @@ def replay(harness, inp):
         return C07.replay("H5_mapcache", inp)
     if harness == "H4_getfont":
         specs = _fontspecs()
-        ids = {"f1": 11, "f2": 12, "t1": 13, "t3": 14, "pf": 15, "pn": 16}
+        ids = FONT_IDS
         rm = pi.PDFResourceManager(caching=inp["caching"])
         before = {k: _snap(v) for k, v in specs.items()}
         tables = _shared_tables()
@@ -347,8 +362,11 @@ def replay(harness, inp):
             if n in ABSOLUTE and [_try(f.to_unichr, c) for c in (65, 66)] != ABSOLUTE[n]:
                 return "get_font history %r (caching=%s): font %s shows codes 65, 66 as %r, its own dictionary / font program says %r" % (
                     inp["hist"][:i + 1], inp["caching"], n, [_try(f.to_unichr, c) for c in (65, 66)], ABSOLUTE[n])
+            if n in ABS_WIDTHS and [round(f.char_width(c), 6) for c in (65, 66)] != ABS_WIDTHS[n]:
+                return "get_font history %r (caching=%s): font %s gives codes 65, 66 the widths %r, the metrics of its glyphs are %r" % (
+                    inp["hist"][:i + 1], inp["caching"], n, [round(f.char_width(c), 6) for c in (65, 66)], ABS_WIDTHS[n])
             if _shared_tables() != tables:
-                return "get_font history %r: building font %s modified a process-wide encoding table" % (inp["hist"][:i + 1], n)
+                return "get_font history %r: building or measuring font %s modified a process-wide encoding or metrics table" % (inp["hist"][:i + 1], n)
             sig = _font_sig(f)
             ref = _font_sig(pi.PDFResourceManager(caching=False).get_font(None, _fontspecs()[n]))
             if sig != ref:
